@@ -5,6 +5,7 @@ import pyModeS as pms  # noqa
 from pyModeS.decoder import uplink as U
 from ref import crc24, frames
 from vlib import gen
+from vlib import volume
 from vlib.core import Leg, call
 
 PROPERTY = "C18"
@@ -13,7 +14,7 @@ RULE = ("uplink frames built from Annex 10 field layouts with the address/parity
         "UF4/5/20/21: RR(32) x DI(8) x SD (16 bits: all single bits, 0, 0xFFFF and random; exhaustive per DI in the thorough tier) with the rest random; "
         "every UF 0..31. Oracle: the encoded UF/RR/DI/RRS/PR/IC/LOS/LSS values; uplink_fields must agree with the single-field functions. "
         "non-trivial = address and payload non-zero, or any non-zero control field"
-        ' Also: every call repeated (the same interrogation is seen again and again) and the dict returned by uplink_fields kept while another interrogation is decoded.')
+        ' Also: every call repeated (the same interrogation is seen again and again) and the dict returned by uplink_fields kept while another interrogation is decoded, 40 000 / 1.2 million distinct interrogations in a row in one process with identical frames coming back after 4 100 ... 1 050 000 others (leg volume).')
 ASSUMPTIONS = ["SD sub-fields per Annex 10 Vol IV 3.1.2.6.1.4.1: IIS 17-20 (DI 0,1,7), RRS 21-24 and LOS 26 (DI 7), LOS 26 (DI 1), SIS 17-22, LSS 23, RRS 24-27 (DI 3)",
                "interrogator code for CL 5-7 and for DI 2,4,5,6 is unconstrained", "'' and None both count as 'no value' in uplink_fields"]
 
@@ -203,7 +204,42 @@ def chk_alluf(c, note):
     return None
 
 
+
+# ---------------------------------------------------------------- volume: one process, very many distinct interrogations, revisits
+def vol_step(a, b, k):
+    uf = RC[a & 3]
+    rr, di, sd = (a >> 3) & 31, (a >> 8) & 7, (a >> 11) & 0xFFFF
+    n = 56 if uf in (4, 5) else 112
+    body = (((a >> 27) & 7) << 24) | (rr << 19) | (di << 16) | sd
+    if n == 112:
+        body = (body << 56) | (b >> 8)
+    addr = (a >> 30) & 0xFFFFFF
+    msg = upl(uf, body, n, addr, "L" if a & 4 else "U")
+    fld = lambda x, y: (sd >> (32 - y)) & ((1 << (y - x + 1)) - 1)
+    rrs = fld(21, 24) if di == 7 else (fld(24, 27) if di == 3 else 0)
+    ebds = "%X%X" % (rr - 16, rrs) if rr > 15 else None
+    r = call(U.bds, msg)
+    if r != ("ok", ebds):
+        return "bds(%s) -> %r, encoded RR %d DI %d RRS %d -> %r" % (msg, r, rr, di, rrs, ebds)
+    eic = "II%d" % fld(17, 20) if di in (0, 1, 7) else ("SI%d" % fld(17, 22) if di == 3 else None)
+    r = call(U.ic, msg)
+    if r[0] != "ok" or (eic is not None and r[1] != eic):
+        return "ic(%s) -> %r, encoded DI %d -> %s" % (msg, r, di, eic)
+    elock = bool((sd >> 6) & 1) if di in (1, 7) else (bool((sd >> 9) & 1) if di == 3 else False)
+    r = call(U.lockout, msg)
+    if r[0] != "ok" or r[1] is None or bool(r[1]) != elock:
+        return "lockout(%s) -> %r, encoded DI %d -> %r" % (msg, r, di, elock)
+    f = call(U.uplink_fields, msg)
+    if f[0] != "ok" or not isinstance(f[1], dict) or f[1].get("DI") != di or f[1].get("RR") != rr:
+        return "uplink_fields(%s) -> %r, encoded RR %d DI %d" % (msg, f, rr, di)
+    r = call(U.uplink_icao, msg)
+    if r[0] != "ok" or not isinstance(r[1], str) or r[1].upper() != "%06X" % addr:
+        return "uplink_icao(%s) -> %r, interrogated address %06X" % (msg, r, addr)
+    return None
+
+
 LEGS = [
+    volume.leg(vol_step, 40000, 1200000, "40 000 (thorough: 1.2 million per process) distinct roll-call interrogations in one process; identical frames decoded again after 4100 ... 1 050 000 others; four concurrent callers at the end"),
     Leg("uplink_icao", chk_icao, strategy=s_icao, quick=20000, thorough=1500000, doc="address recovery through the uplink AP encoder"),
     Leg("uf11", chk_uf11, enum=enum_uf11, exhaustive=True, doc="PR x IC x CL"),
     Leg("rollcall", chk_rc, enum=enum_rc, exhaustive=False, doc="UF4/5/20/21 x RR x DI x SD"),
